@@ -136,7 +136,9 @@ def oracle_par(inst):
 def attach_oracle(inst):
   """Chooses the budget range from the oracle's own required budgets, then builds the final tables."""
   geos = list(range(1, inst['n'] + 1))
-  if inst['want_budget'] and inst['n'] >= 2:
+  if inst['want_budget'] and inst['n'] >= 2 and inst['par']['iroas'] == 0:
+    inst['budget'] = (0.0, 100.0)       # with iroas on its bound every required budget is infinite
+  elif inst['want_budget'] and inst['n'] >= 2:
     t0 = oracle.build(geos, inst['cells'], oracle_par(inst), inst['n_dates'])
     budgets = sorted(d['ri'] / inst['par']['iroas'] for d in t0['diags'].values())
     q = lambda f: budgets[min(len(budgets) - 1, int(f * len(budgets)))]
@@ -154,7 +156,7 @@ def attach_oracle(inst):
       b = (rnd(budgets[-1] * 20), rnd(budgets[-1] * 100))
     else:
       b = (0.0, rnd(budgets[-1] * 10))
-    if b[0] < b[1]:
+    if 0 <= b[0] < b[1] < float('inf'):
       inst['budget'] = b
   inst['tab'] = oracle.build(geos, inst['cells'], oracle_par(inst), inst['n_dates'])
   return inst
@@ -308,11 +310,15 @@ def run_search(inst, which, variant=None):
   box = {}
 
   events = []
+  try:
+    data, par, ids = build_objects(inst, variant)
+  except Exception as e:  # pylint: disable=broad-except
+    # the input objects themselves were rejected (C15 / C16 / C17 territory): there is no search to judge
+    return {'status': 'unconstructible', 'designs': [], 'error': '%s: %s' % (type(e).__name__, e)}
+  box['ids'], box['par'] = ids, par
 
   def thunk():
     from matched_markets.methodology import tbrmatchedmarkets, _verif_trace
-    data, par, ids = build_objects(inst, variant)
-    box['ids'], box['par'] = ids, par
     mmo = tbrmatchedmarkets.TBRMatchedMarkets(data, par)
     if inst.get('decoy'):
       interfere(mmo)
@@ -404,8 +410,8 @@ def run_shared(a, b):
     box.update(data=data, par_a=par_a, par_b=par_b, ids=ids)
   try:
     construct()
-  except ValueError as e:
-    r = {'status': 'valueerror', 'designs': [], 'error': 'ValueError: %s' % e}
+  except Exception as e:  # pylint: disable=broad-except
+    r = {'status': 'unconstructible', 'designs': [], 'error': '%s: %s' % (type(e).__name__, e)}
     a['exh'] = a['greedy'] = b['exh'] = b['greedy'] = r
     return
   ids = box['ids']
@@ -657,6 +663,11 @@ def run_search_clauses(res, owner, count=None):
   partners = [i['partner'] for i in insts if i.get('partner') is not None]
   res.extra['search_shared_data_pairs'] = res.extra.get('search_shared_data_pairs', 0) + len(partners)
   insts = insts + partners
+  unbuilt = [i for i in insts if i['exh']['status'] == 'unconstructible' or i['greedy']['status'] == 'unconstructible']
+  res.extra['dropped_unconstructible'] = res.extra.get('dropped_unconstructible', 0) + len(unbuilt)
+  for i in unbuilt[:3]:
+    res.note('input objects rejected at construction (not judged): %s' % i['exh']['error'])
+  insts = [i for i in insts if i not in unbuilt]
   verdicts = judge(res, insts, owner)
   primary_of = {i['partner']['id']: i for i in insts if i.get('partner') is not None}
   stats = {'instances': len(insts), 'exh_nonempty': 0, 'greedy_nonempty': 0, 'valueerror': 0, 'with_obligations': 0,
